@@ -38,6 +38,38 @@ LOOP_REVIEWED = {
 }
 
 
+INFINITE_SOURCES = ('repeat', 'repeat_with', 'cycle', 'successors', 'from_fn', 'once_with', 'iterate')
+ADAPTERS = ('into_iter', 'iter', 'iter_mut', 'rev', 'by_ref', 'copied', 'cloned', 'enumerate', 'zip', 'map', 'take', 'skip', 'step_by', 'filter', 'peekable',
+            'chunks_exact', 'chunks', 'windows', 'chunks_exact_mut', 'chunks_mut', 'bytes', 'chars', 'char_indices', 'as_bytes', 'lines', 'split')
+
+
+def finite_iter(fn, fa, b, t):
+    """the iterator advanced by this `next` is a std adapter chain over a finite source (a Range with an upper bound,
+    a slice / array / Vec / str): every adapter in ADAPTERS yields at most as many items as its first source"""
+    nm = t['fn']['name']
+    if not nm.startswith(('core::', 'alloc::', 'std::')):
+        return False
+    if not t['args']:
+        return False
+    from ..prov import strip
+    e = strip(norm(fa.P.operand(t['args'][0], b, len(fn.blocks[b]['stmts']))))
+    depth = 0
+    while e.k == 'call' and last(e.name) in ADAPTERS and e.args and depth < 12:
+        e = strip(e.args[0])
+        depth += 1
+    if e.k == 'call' and last(e.name) in INFINITE_SOURCES:
+        return False
+    if e.k == 'aggr':
+        return e.name in ('Range::Range', 'RangeInclusive::RangeInclusive', 'array', 'repeat')
+    if e.k == 'call' and last(e.name) in ('new',) and 'RangeInclusive' in (e.name or ''):
+        return True
+    ty = (e.ty or '')
+    if e.k in ('param', 'local', 'field', 'index', 'call', 'const', 'phi'):
+        # a value (slice, array, Vec, String ..): finite unless it is itself an unbounded range
+        return 'RangeFrom' not in ty and 'Repeat' not in ty and 'Cycle' not in ty
+    return False
+
+
 def classify_loops(cx, fn, an):
     """every CFG cycle is a finite iterator loop, a bounded counter loop, a rejection-sampling/retry loop, or reviewed"""
     out = []
@@ -50,7 +82,7 @@ def classify_loops(cx, fn, an):
         kind = None
         for b in comp:
             t = fn.blocks[b]['term']
-            if t['k'] == 'call' and t['fn']['k'] == 'def' and last(t['fn']['name']) == 'next' and t['fn']['name'] in ITER_OK:
+            if t['k'] == 'call' and t['fn']['k'] == 'def' and last(t['fn']['name']) == 'next' and (t['fn']['name'] in ITER_OK or finite_iter(fn, fa, b, t)):
                 # the block after must switch on the discriminant with an edge leaving the component
                 tb = t['target']
                 if tb is not None and fn.blocks[tb]['term']['k'] == 'switch' and any(s not in comp for s in fn.succ(tb)):
@@ -98,6 +130,13 @@ def run(cx):
     for n in sorted(seen):
         fn = F.fns[n]
         sites = an.analyze(n)
+        # stable keys: kind/head and ordinal within the function (no expression text: refactoring the operands of a
+        # known finding must not turn it into a "new" violation)
+        cnt_ = {}
+        for s in sorted(sites, key=lambda z: z.block):
+            head = s.desc.split('(')[0][:40]
+            cnt_[head] = cnt_.get(head, 0) + 1
+            s.skey = '%s#%s@%d' % (fn.short, head, cnt_[head])
         bad = [s for s in sites if s.status is None]
         for s in sites:
             total += 1
@@ -111,7 +150,7 @@ def run(cx):
                 if s.desc in seen_desc:
                     continue
                 seen_desc.add(s.desc)
-                cx.violate('L-PANIC', s.key(), 'panic site not excluded: %s in %s' % (s.desc[:160], fn.short), s.where(), {'kind': s.kind})
+                cx.violate('L-PANIC', s.skey, 'panic site not excluded: %s in %s' % (s.desc[:160], fn.short), s.where(), {'kind': s.kind})
         else:
             cx.hold('L-PANIC', fn.short, '%d panic site(s) in %s all excluded (%s)' % (
                 len(sites), fn.short, ', '.join('%s:%d' % (k, sum(1 for s in sites if s.status == k)) for k in ('OK', 'NEED', 'REVIEWED', 'UNARMED') if any(s.status == k for s in sites))), fn.loc())
@@ -129,10 +168,12 @@ def run(cx):
     nl = 0
     for n in sorted(seen):
         fn = F.fns[n]
-        for (b, kind) in classify_loops(cx, fn, an):
+        nu = 0
+        for (b, kind) in sorted(classify_loops(cx, fn, an)):
             nl += 1
             if kind is None:
-                cx.violate('L-LOOP', '%s@bb%d' % (fn.short, b), 'loop in %s has no structural bound (not an iterator, bounded counter, or retry loop with a fresh draw)' % fn.short, G.where(fn, b))
+                nu += 1
+                cx.violate('L-LOOP', '%s@unbounded%d' % (fn.short, nu), 'loop in %s has no structural bound (not an iterator, bounded counter, or retry loop with a fresh draw)' % fn.short, G.where(fn, b))
     cx.add('L-LOOP', 'sweep', True, '%d CFG cycles in the closure classified (iterator / bounded counter / rejection with fresh draw / reviewed)' % nl)
     cx.floor('L-LOOP', 'cycles', nl, 60, 'loops in the closure')
     # recursion
